@@ -79,6 +79,14 @@ def gen(tier, rng, harness=None, driver=None):
         lines.append("num.mod " + " ".join(ents))
         lines.append("num.modapi " + " ".join(ents))
         lines.append("!num.modok " + " ".join(ents))
+    # LONG runs of unnamed entities of all kinds interleaved (13 to 40: a renumbering that sorts by kind must keep the textual order within a kind — library
+    # sorts are stable only by accident below a dozen elements)
+    for _ in range(40 if tier == "quick" else 2000):
+        ents = [rng.choice("GAIFD") + ":" + rng.choice("uuun") for _ in range(rng.randint(13, 40))]
+        lines.append("num.mod " + " ".join(ents))
+        lines.append("num.modapi " + " ".join(ents))
+        lines.append("!num.modok " + " ".join(ents))
+        lines.append("!num.apiok " + " ".join(ents))
     # systematic (every run): every kind of unnamed global entity before and after every kind of foreign entity
     for g in ("G:u", "A:u", "I:u", "F:u", "D:u"):
         for x in "amtcn":
